@@ -174,7 +174,17 @@ def run(ctx):
     oks = len(skips) == 1 and isinstance(skips[0], ast.If)
     if oks:
         ys = [y for y in ast.walk(skips[0]) if isinstance(y, ast.Yield)]
-        allmissing = ys and all('missing' in norm(y).lower() for y in ys)
+
+        def _ytype(y):
+            # type of the metadata dict assigned right before the yield (def-use, as in the funnel rules)
+            for nm in [x.id for x in ast.walk(y.value) if isinstance(x, ast.Name)] if y.value is not None else []:
+                v = last_assignment(nm, fun, y.lineno)
+                if isinstance(v, ast.Dict):
+                    for k, val in zip(v.keys, v.values):
+                        if isinstance(k, ast.Constant) and k.value == 'type' and isinstance(val, ast.Attribute):
+                            return val.attr
+            return None
+        allmissing = ys and all(_ytype(y) == 'MISSING' for y in ys)
         oks = allmissing and 'not skip_if_missing' in norm(skips[0].test)
     if oks:
         chk.ok(R2, fun.qualname, norm(skips[0].test), detail='skip_if_missing only suppresses the MISSING yields')
